@@ -14,8 +14,8 @@ pub struct StunMsg {
     pub magic: bool,
     /// attributes (type, value) read with 4-byte alignment
     pub attrs: Vec<(u16, Vec<u8>)>,
-    /// the attribute TLVs tile the attribute area exactly and every value
-    /// length is a multiple of 4 (so RFC 3489 and RFC 5389 readings agree)
+    /// the attribute TLVs, each value padded to a multiple of 4 bytes, tile the attribute area
+    /// exactly (values whose length is no multiple of 4 only with the RFC 5389 magic cookie)
     pub tiles: bool,
     /// message length field equals the number of bytes following the header
     pub len_matches: bool,
@@ -46,6 +46,7 @@ pub fn parse(b: &[u8]) -> Option<StunMsg> {
     let len_matches = len as usize == area.len();
     let mut attrs = Vec::new();
     let mut tiles = len_matches;
+    let mut odd = false;
     let mut i = 0usize;
     let end = (len as usize).min(area.len());
     while i < end {
@@ -55,12 +56,22 @@ pub fn parse(b: &[u8]) -> Option<StunMsg> {
         }
         let at = ((area[i] as u16) << 8) | area[i + 1] as u16;
         let al = (((area[i + 2] as u16) << 8) | area[i + 3] as u16) as usize;
-        if al % 4 != 0 || i + 4 + al > end {
+        // values are padded to a multiple of 4 bytes (RFC 5389 section 15; RFC 3489 values are
+        // multiples of 4 anyway); a last value without its padding does not tile
+        let padded = (al + 3) & !3;
+        if i + 4 + padded > end {
             tiles = false;
             break;
         }
+        if al % 4 != 0 {
+            odd = true;
+        }
         attrs.push((at, area[i + 4..i + 4 + al].to_vec()));
-        i += 4 + al;
+        i += 4 + padded;
+    }
+    // without the magic cookie there is no padding rule: the two readings disagree
+    if odd && b[4..8] != MAGIC {
+        tiles = false;
     }
     Some(StunMsg {
         ty,
@@ -99,6 +110,9 @@ pub fn build(ty: u16, id: &[u8; 16], attrs: &[(u16, Vec<u8>)]) -> Vec<u8> {
         body.extend_from_slice(&t.to_be_bytes());
         body.extend_from_slice(&(v.len() as u16).to_be_bytes());
         body.extend_from_slice(v);
+        while body.len() % 4 != 0 {
+            body.push(0);
+        }
     }
     let mut m = Vec::with_capacity(20 + body.len());
     m.extend_from_slice(&ty.to_be_bytes());
@@ -151,8 +165,8 @@ pub fn gen_attrs(rng: &mut Rng, allow_change: bool) -> Vec<(u16, Vec<u8>)> {
                 }
             }
             2 => {
-                // SOFTWARE / USERNAME style text attribute, padded to 4
-                let l = (rng.below(16) * 4) as usize;
+                // SOFTWARE / USERNAME style text attribute of any length (padded to 4 on the wire)
+                let l = if rng.chance(1, 2) { (rng.below(16) * 4) as usize } else { rng.range(1, 64) as usize };
                 v.push((*rng.pick(&[0x8022u16, 0x0006, 0x0014, 0x0015]), rng.bytes(l)));
             }
             3 => v.push((0x8028, rng.bytes(4))), // FINGERPRINT
